@@ -15,7 +15,7 @@ from engine.core import res, violation, seed_offsets
 ID = "C04"
 LEVEL = "exploration"
 WORKERS = {"quick": 12, "thorough": 16}
-RULE = ("complete product (catalogue pairs + mu ladder) x {L1..L5}: existence, equilibrium residual, gamma vs position and quintic, linear modes vs eigenvalues of the reference "
+RULE = ("access histories in newly forked processes (two systems in both creation orders x point visiting orders, every visit checked in full, then all again in reverse); complete product (catalogue pairs + mu ladder) x {L1..L5}: existence, equilibrium residual, gamma vs position and quintic, linear modes vs eigenvalues of the reference "
         "Jacobian, normal-form matrix (C^T J C = J and C^T Hess(H2) C = target pattern), c_n for n=2..8; non-trivial = point returned and checked; distinct = (mu, point)")
 ASSUMPTIONS = [
     "L4/L5 above the Routh ratio have no real frequencies: raising there is a legitimate rejection",
@@ -266,7 +266,34 @@ def k_point_one(params):
     return res(viol=vs, nontrivial=1)
 
 
-KINDS = {"mu": k_mu, "point_one": k_point_one}
+def k_history(params):
+    """access histories, in a newly forked process: on each of the given systems (created in the given order) the five points are visited in the
+    given order and every visit is checked in full; then every point of every system is visited again in reverse order.  The answer for
+    (system, point) must not depend on what was asked before -- of the same system or of another one."""
+    System = _L["System"]
+    viol = {}
+    n = nt = 0
+    systems = []
+    names = []
+    for entry in params["systems"]:
+        system = System.from_bodies(entry[0], entry[1]) if isinstance(entry, list) else System.from_mu(entry)
+        systems.append((system, "%s mu=%.6g" % (entry, system.mu)))
+    visits = [(si, nm) for si in range(len(systems)) for nm in params["order"]]
+    visits = visits + visits[::-1]
+    for k, (si, nm) in enumerate(visits):
+        system, tag = systems[si]
+        names.append("%d:%s" % (si, nm))
+        vs, info = check_point(system, float(system.mu), nm, tag)
+        n += 1
+        nt += 1
+        for v in vs:
+            key = "history/" + v["key"]
+            viol.setdefault(key, violation(key, "visit %d of the access sequence %s (systems %s): %s" % (k + 1, names, [t for _, t in systems], v["what"]), v["observed"], v["expected"], ("history", params)))
+    return res(evals=n, nontrivial=nt, viol=list(viol.values()), sample={"systems": [t for _, t in systems], "visits": len(visits)})
+
+
+FRESH_KINDS = ("history",)
+KINDS = {"mu": k_mu, "point_one": k_point_one, "history": k_history}
 
 
 def cases(tier, seed):
@@ -284,4 +311,12 @@ def cases(tier, seed):
     allmu = ladder + special
     for i in range(0, len(allmu), 3):
         out.append(("mu", {"systems": allmu[i:i + 3]}))
+    # access histories (newly forked process each): two systems in both creation orders x point orders (each point first once, ascending and descending)
+    orders = [["L1", "L2", "L3", "L4", "L5"], ["L5", "L4", "L3", "L2", "L1"], ["L2", "L1", "L4", "L3", "L5"], ["L3", "L5", "L1", "L2", "L4"], ["L4", "L2", "L5", "L3", "L1"]]
+    pairs_h = [[0.01215, 1e-3], [1e-3, 0.01215], [["earth", "moon"], 0.01215], [0.01215, ["earth", "moon"]]]
+    if tier != "quick":
+        pairs_h += [[0.03, 0.04], [0.04, 0.03], [["sun", "earth"], ["sun", "jupiter"]], [["sun", "jupiter"], ["sun", "earth"]]]
+    for ph in pairs_h:
+        for od in (orders[:3] if tier == "quick" else orders):
+            out.append(("history", {"systems": ph, "order": od}))
     return out
